@@ -6,6 +6,7 @@ from .. import inputs
 from . import geom
 
 SPEC = dict(
+    technique='Lean 4 proof (spatial cross products, duality, inertia, SE3 action; regenerated model) + float monitor',
     lean_modules=['SmVerif.Props.C20'],
     groups=['Spatial'],
     partial=['cross-product matrices, duality, parallel-axis inertia and the SE3 action are proved on the traced class methods; class / length guards are enumerated'],
